@@ -922,4 +922,37 @@ theorem boxSlices_ranges (shape : List Nat) (pts : List (List Int)) (sls : List 
     exact sliceIdx_box N lo hi
   · exact absurd hb (by simp)
 
+/-- one subregion by arbitrary slices: everything about the result (used by C02 and C19) -/
+theorem subSlices_placed (im sub : Img) (hcs : im.cs.ok) (sls : List PySlice)
+    (h : im.subSlices sls = .ok sub) (hne : sub.nonempty = true) :
+    let ns := List.zipWith sliceIdx im.cs.shape sls
+    ∃ am, axisMap im.cs.dim = .ok am ∧
+      sub.cs.shape = ns.map (fun s => s.2 - s.1) ∧
+      sub.slabs = im.slabs.map (fun sl => { sl with idx := List.zipWith Patch.sliceL sl.idx ns }) ∧
+      (∀ v : List Rat, v.length = im.cs.dim.toNat →
+        coordWith am sub.cs v = coordWith am im.cs (List.zipWith (· + ·) v (ns.map fun s => ((s.1 : Nat) : Rat)))) ∧
+      (∀ p, p < im.cs.dim.toNat → sub.cs.h p = im.cs.h p) ∧
+      sub.time = im.time ∧ sub.date = im.date ∧ sub.ref = im.ref ∧ sub.series = im.series ∧ sub.scalar = im.scalar := by
+  intro ns
+  obtain ⟨hl, hshape⟩ := subSlices_shape im sub sls h
+  have hnsLen : ns.length = im.cs.dim.toNat := by
+    show (List.zipWith sliceIdx im.cs.shape sls).length = _
+    rw [List.length_zipWith, hcs.shapeLen, hl]; simp
+  have hlt : ∀ s ∈ ns, s.1 < s.2 := by
+    intro s hs
+    unfold Img.nonempty at hne
+    rw [hshape, List.all_eq_true] at hne
+    have := hne (s.2 - s.1) (List.mem_map.mpr ⟨s, hs, rfl⟩)
+    simp at this; omega
+  obtain ⟨am, ham, hwf, hspec⟩ := subSlices_spec im hcs sls hl (fun s hs => le_of_lt (hlt s hs))
+  rw [hspec] at h; injection h with h; subst h
+  obtain ⟨_, hamB⟩ := wf_bound hwf
+  refine ⟨am, ham, rfl, rfl, ?_, ?_, rfl, rfl, rfl, rfl, rfl⟩
+  · intro v hv
+    exact subSpec_coord im ns am v (fun pr hpr => by rw [hnsLen]; exact hamB pr hpr) (by rw [hv, hnsLen]) hlt
+  · intro p hp
+    have hp' : p < ns.length := by rw [hnsLen]; exact hp
+    exact subSpec_h im ns am p hp' (by
+      apply hlt; unfold listGetD; rw [List.getElem?_eq_getElem hp']; exact List.getElem_mem hp')
+
 end Darsia.Im
